@@ -12,7 +12,12 @@ response (with / without interaction_complete_patterns), two-line prompts, UTF-8
 echoes, inside one read and cut by a read boundary; commands of 20 .. 1100 characters whose echo arrives in several reads;
 histories in which the user CHANGES the prompt pattern of the open connection between operations (driver attribute, channel
 arguments, update_privilege_levels() after editing a level pattern): the oracle's domain and the model (run_segs) take the
-pattern in force at each operation; tie: the channel compiles the pattern text at each use (AST + probe in gen_channel)."""
+pattern in force at each operation; tie: the channel compiles the pattern text at each use (AST + probe in gen_channel);
+command-in-output = device outputs DERIVED FROM THE TYPED TEXT (a line equal to the command - exactly, up to case, up to blanks,
+followed by a return -, the command as prefix / suffix of a line, repeated; as first / inner / last / only line) for send_command,
+send_commands (own / neighbouring command) and send_interactive (event inputs against the texts and the final output), all driver
+kinds; tie: the REAL _process_output is probed with every signature it accepts (gen_channel), the model's is a function of the
+buffer alone."""
 import json
 import os
 import re
@@ -1415,6 +1420,167 @@ def repattern_family(rng, thorough):
     return out
 
 
+# outputs derived from the COMMAND ITSELF: a box that titles its output with the command, `hostname` on a host called
+# "hostname", `cat` of a file that holds the line just typed, a device that repeats the answer it was given.  The echo of the
+# input was read (and discarded) before the return was sent: whatever the device prints after the return is output, also when
+# it reads like the input.
+CIO_WORDS = ["show", "clock", "version", "ip", "route", "summary", "Interface", "Ethernet1/1", "running-config", "uptime", "10.0.0.1",
+             "detail", "lo0", "BGP", "vrf", "Mgmt", "hostname", "terminal", "length", "0", "|", "include", "UP"]
+CIO_SINGLE = ["hostname", "uptime", "pwd", "whoami", "date", "Version"]
+CIO_VARIANTS = ["equal", "case", "blanks", "return", "prefix", "suffix", "repeated"]
+CIO_PLACES = ["first", "middle", "last", "only"]
+CIO_OPS = ["cmd", "cmds", "inter"]
+
+
+def cio_command(rng):
+    """a command of 1-4 words: mixed case, single / double blanks or a tab between the words, sometimes a non-ASCII word,
+    sometimes leading / trailing blanks (none of the characters that end a prompt)"""
+    if rng.random() < 0.25:
+        core = rng.choice(CIO_SINGLE)
+    else:
+        toks = [rng.choice(CIO_WORDS) for _ in range(rng.randint(2, 4))]
+        if rng.random() < 0.15:
+            toks.insert(rng.randint(1, len(toks)), "".join(rng.choice(UNI) for _ in range(rng.randint(1, 3))))
+        core = (rng.choice(["  ", "\t"]) if rng.random() < 0.15 else " ").join(toks)
+    return (rng.choice([" ", "  "]) if rng.random() < 0.1 else "") + core + (rng.choice([" ", "  ", "\t"]) if rng.random() < 0.2 else "")
+
+
+def cio_lines(rng, cmd, variant):
+    """the line(s) a device prints that are derived from the typed text `cmd`"""
+    core = cmd.strip()
+    if variant == "equal":
+        return [core if rng.random() < 0.7 else cmd]
+    if variant == "case":
+        alts = [x for x in (core.upper(), core.lower(), core.title(), core.swapcase()) if x != core]
+        return [rng.choice(alts)] if alts else [core]
+    if variant == "blanks":
+        words = core.split()
+        alts = ["  " + core, "\t" + core, core + "   ", " " + core + " \t"]
+        if len(words) > 1:
+            alts += ["  ".join(words), "\t".join(words), " ".join(words[:-1]) + "   " + words[-1], " ".join(words)]
+        return [rng.choice([a for a in alts if a != core] or alts)]
+    if variant == "return":
+        # the line, then the return: an empty line follows it (the last line of an output: a trailing newline)
+        return [core, ""] if rng.random() < 0.7 else [core, "", ""]
+    if variant == "prefix":
+        return [core + rng.choice([" (UTC)", ",", " -", " output", ".", "-detail", " = ok", "!", "  |"])]
+    if variant == "suffix":
+        return [rng.choice(["% ", "output of ", "x", "! ", "-- ", "(", "Invalid input detected at marker ", "'"]) + core]
+    if variant == "repeated":
+        k = rng.random()
+        if k < 0.35:
+            return [core, core]
+        if k < 0.55:
+            return [core, core, core.upper()]
+        if k < 0.8:
+            return [core + " " + core]
+        return [core + core]
+    raise ValueError(variant)
+
+
+def cio_output(rng, cmd, variant, place):
+    """an output that holds the derived line(s) as its first / an inner / its last line(s), or as all there is"""
+    mine = [u8s(l) for l in cio_lines(rng, cmd, variant)]          # the device prints the UTF-8 bytes of what was typed
+    other = lambda: [b2s(gen_line(rng, rng.choice([3, 12, 30, 60]), SAFE)) for _ in range(rng.randint(1, 3))]  # noqa
+    if place == "only":
+        lines = mine
+    elif place == "first":
+        lines = ([""] * rng.choice([0, 0, 0, 1, 2])) + mine + other()      # sometimes after blank lines: still the first line of the result
+    elif place == "last":
+        lines = other() + mine
+    else:
+        lines = other() + mine + other()
+    return "\n".join(lines)
+
+
+def cio_scenario(rng, kind, stack, opk, variant, place):
+    """one history whose device output is derived from what was typed, followed by a plain command.
+    cmd: the output of the command.  cmds: the output of one of 2-3 commands holds its own command or (every second time) the
+    command sent before / after it.  inter: the text in front of a question is derived from the first line of the dialogue, or
+    the final output from the answer (echoed or hidden) - event inputs against event outputs."""
+    for attempt in range(25):
+        prompt = rng.choice(FOCUS_PROMPTS[kind]) if rng.random() < 0.7 else gen_prompt(rng, kind)
+        core = prompt.rstrip(" ")
+        sub = None
+        if opk == "cmd":
+            c = cio_command(rng)
+            ops, replies = [{"op": "cmd", "cmd": c, "strip": rng.random() < 0.6}], [{"out": cio_output(rng, c, variant, place)}]
+        elif opk == "cmds":
+            cs = [cio_command(rng) for _ in range(rng.choice([2, 3]))]
+            if len({c.strip().lower() for c in cs}) < len(cs):
+                continue
+            at = rng.randrange(len(cs))
+            sub = rng.choice(["own", "own", "next", "previous"])
+            src = at if sub == "own" else (at + 1) % len(cs) if sub == "next" else (at - 1) % len(cs)
+            ops = [{"op": "cmds", "cmds": cs, "strip": rng.random() < 0.6, "eager": False}]
+            replies = [{"out": cio_output(rng, cs[src], variant, place) if i == at else rng.choice(["", "ok", b2s(gen_output(rng, rng.randint(1, 40)))])}
+                       for i in range(len(cs))]
+        else:
+            q, lit = rng.choice(QUESTIONS[:2] + QUESTIONS[3:6])
+            first = cio_command(rng).strip()
+            sub = rng.choice(["first-line", "echoed-answer", "hidden-answer"])
+            if sub == "hidden-answer":
+                q, lit = rng.choice([QUESTIONS[2], QUESTIONS[6]])
+            answer = rng.choice(["yes", "confirm", "startup-config", "s3cr3t Pass", "flash0 test1.txt", "Y"])
+            hidden = sub == "hidden-answer"
+            text = cio_output(rng, first, variant, place) if sub == "first-line" else rng.choice(["", "Building configuration", ""])
+            final = cio_output(rng, answer, variant, place) if sub != "first-line" else rng.choice(["", "[OK]", b2s(gen_output(rng, rng.randint(1, 30)))])
+            ops = [{"op": "inter", "events": [[first, lit, rng.choice([False, None])], [answer, core, True if hidden else rng.choice([False, None])]],
+                    "complete": None}]
+            replies = [{"stages": [[text, q if rng.random() < 0.8 else q.rstrip(" "), not hidden]], "final": final}]
+        ops.append({"op": "cmd", "cmd": "show clock", "strip": True})
+        replies.append({"out": "Thu Oct 1 2026 12.00 UTC"})
+        scn = with_nrep({"kind": kind, "stack": stack, "prompt": prompt, "nl": rng.choice(["\r\n", "\r\n", "\n"]), "ret": rng.choice(["\n", "\n", "\r\n"]),
+                         "depth": rng.choice([1000, 1000, 1000, 200]), "policy": rng.choice(FINE_POLICIES + [["whole"], ["whole"], ["bytes", 1000]]),
+                         "focus": "command-in-output", "cio": [opk, variant, place, sub], "replies": replies, "ops": ops})
+        if in_domain(scn, exact=True):
+            break
+    return scn
+
+
+def cio_hostname_scenario(rng, kind, stack):
+    """`hostname` on a host called "hostname" (the whole output is the command), then the same through send_commands"""
+    host = rng.choice(["hostname", "Hostname", "uptime"])
+    prompt = "%s#" % host if kind == "generic" else platform_prompt(kind, host).decode()
+    return with_nrep({"kind": kind, "stack": stack, "prompt": prompt, "nl": "\r\n", "ret": rng.choice(["\n", "\r\n"]), "depth": 1000,
+                      "policy": rng.choice([["whole"], ["lines"], ["bytes", 3]]), "focus": "command-in-output", "cio": ["cmd", "equal", "only", "hostname"],
+                      "replies": [{"out": host}, {"out": host.lower() + "\n"}, {"out": "Thu Oct 1 2026 12.00 UTC"}],
+                      "ops": [{"op": "cmd", "cmd": host.lower(), "strip": rng.random() < 0.5},
+                              {"op": "cmds", "cmds": [host.lower() + " ", "show clock"], "strip": True, "eager": False}]})
+
+
+def command_in_output_family(rng, thorough):
+    """every way of deriving a line from the typed text (equal; equal up to case; up to blanks; followed by a return; the text
+    as a prefix / a suffix of a line; repeated) x every place in the output (first, inner, last line, the whole output) x
+    send_command / send_commands / send_interactive, spread over all driver kinds and both stacks (each kind sees every operation
+    kind, each operation kind every variant and every place)"""
+    out, n = [], rng.randrange(14)
+    for rnd in range(3 if thorough else 1):
+        for variant in CIO_VARIANTS:
+            for place in CIO_PLACES:
+                for opk in CIO_OPS:
+                    out.append(cio_scenario(rng, KINDS[n % 7], ["sync", "async"][(n // 7) % 2], opk, variant, place))
+                    n += 5                                   # 5 is coprime to 14: every (kind, stack) in turn
+    for i, kind in enumerate(KINDS):
+        for opk in CIO_OPS:                                  # every kind x operation kind x stack, first line equal to the input
+            for stack in ("sync", "async"):
+                out.append(cio_scenario(rng, kind, stack, opk, rng.choice(["equal", "equal", "case", "blanks"]), rng.choice(["first", "first", "only"])))
+        out.append(cio_hostname_scenario(rng, kind, ["sync", "async"][i % 2]))
+    return out
+
+
+def cio_seen(scn, res):
+    """how many results of the history hold (case and blanks aside) a line that is the typed text of the operation - coverage only"""
+    n = 0
+    squash = lambda b: b"".join(b.lower().split())  # noqa
+    for op, o in zip(scn["ops"], res["ops"]):
+        typed = [op["cmd"]] if op["op"] == "cmd" else list(op.get("cmds", [])) + [e[0] for e in op.get("events", [])]
+        keys = {squash(t.encode()) for t in typed if t.strip()}
+        for _, _, proc in o.get("chan", []):
+            n += any(squash(l) in keys for l in proc.split(b"\n"))
+    return n
+
+
 def focus_scenarios(rng, thorough):
     """(scenario, to the model too?) - every scenario runs on the real driver under the oracle; a sample whose estimated
     evaluation cost is small is also evaluated by the model (the members of a family differ in a few bytes only)"""
@@ -1450,6 +1616,8 @@ def focus_scenarios(rng, thorough):
         out.append((scn, n % 7 == 0 and cheap(scn, 6000.0)))
     for n, scn in enumerate(repattern_family(rng, thorough)):
         out.append((scn, n % 2 == 0 and cheap(scn, 15000.0)))
+    for n, scn in enumerate(command_in_output_family(rng, thorough)):
+        out.append((scn, n % (5 if thorough else 3) == 0 and cheap(scn, 6000.0)))
     return out
 
 
@@ -1666,6 +1834,16 @@ def run(rep):
         bad = oracle(scn, res) if dom else []
         for sig, text in bad:
             fails.append((scn, sig, text))
+        if scn.get("focus") == "command-in-output":
+            ci = dist.setdefault("command_in_output", {"by_op_variant": {}, "by_op_place": {}, "by_kind_op": {}, "by_stack_op": {}, "through_model": 0,
+                                                       "lines_derived_from_the_input_in_results": 0})
+            if dom:
+                opk, variant, place, sub = scn["cio"]
+                for dname, key in (("by_op_variant", "%s %s" % (opk, variant)), ("by_op_place", "%s %s" % (opk, place)),
+                                   ("by_kind_op", "%s %s" % (scn["kind"], opk)), ("by_stack_op", "%s %s" % (scn["stack"], opk))):
+                    ci[dname][key] = ci[dname].get(key, 0) + 1
+                ci["through_model"] += stream == "focus"
+                ci["lines_derived_from_the_input_in_results"] += cio_seen(scn, res)
         if scn.get("focus") == "repattern":
             rp = dist.setdefault("repattern", {"by_via_kind_stack": {}, "pattern_changes": 0, "operations_after_a_change": 0,
                                                "outputs_with_lines_the_previous_pattern_reads_as_prompt": 0})
@@ -1748,6 +1926,15 @@ def run(rep):
     if thin or rp.get("outputs_with_lines_the_previous_pattern_reads_as_prompt", 0) < 20 or dist.get("repattern_untranslatable", 0) > 0:
         rep.broken.append("harness: repattern stream thin: classes missing %s, %d outputs with tempting lines, %d untranslatable" % (
             thin[:3], rp.get("outputs_with_lines_the_previous_pattern_reads_as_prompt", 0), dist.get("repattern_untranslatable", 0)))
+    # the command-in-output family: every operation kind saw every variant and every place, every driver kind every operation kind,
+    # sync and asyncio, inside the domain; and the derived lines did arrive in results (counted on what the driver returned)
+    ci = dist.get("command_in_output", {})
+    want_ci = ({("by_op_variant", "%s %s" % (o, v)) for o in CIO_OPS for v in CIO_VARIANTS} | {("by_op_place", "%s %s" % (o, p)) for o in CIO_OPS for p in CIO_PLACES}
+               | {("by_kind_op", "%s %s" % (k, o)) for k in KINDS for o in CIO_OPS} | {("by_stack_op", "%s %s" % (st, o)) for st in ("sync", "async") for o in CIO_OPS})
+    thin = sorted(k for d, k in want_ci if not ci.get(d, {}).get(k))
+    if thin or ci.get("through_model", 0) < 10:
+        rep.broken.append("harness: command-in-output stream thin: %d classes missing (first: %s), %d through the model" % (
+            len(thin), thin[:1], ci.get("through_model", 0)))
     for sig, fscn in FINDING_SCENARIOS.items():
         try:
             fs = with_nrep(flat(fscn))
@@ -1811,7 +1998,13 @@ def run(rep):
                 "sync/asyncio x every way of changing; after each change the outputs of send_command / send_commands / the final text of a dialogue hold "
                 "complete lines that the REPLACED pattern reads as a prompt and the pattern in force does not (RX> Totals: vlan# sw1(config)# [edit] ...; first, "
                 "inner and last line, with trailing blanks), get_prompt in between; in_domain and the model judge each operation against the pattern in "
-                "force when it is called; a pattern change itself must not talk to the device and must be reported back by the driver; observer: what was unread at every transport write (each answer is typed only after its "
+                "force when it is called; a pattern change itself must not talk to the device and must be reported back by the driver; "
+                "command-in-output = outputs derived from the typed text itself: a line that equals the command (exactly; in other case; with other "
+                "inner / leading / trailing blanks or tabs; followed by an empty line), that starts or ends with the command, the command twice (two lines, "
+                "one line), as the first (also after blank lines), an inner, the last or the only line of the output of send_command, of one of the "
+                "commands of send_commands (its own command, the one sent before or after it) and - send_interactive - of the text in front of a question "
+                "(first line of the dialogue) or of the final output (the echoed or the hidden answer); `hostname` on a host called hostname; every "
+                "driver kind x operation kind x sync/asyncio, every variant and place per operation kind (checked), each followed by a plain command; observer: what was unread at every transport write (each answer is typed only after its "
                 "question was read); "
                 "non-trivial = in-domain operation of a history with >= 2 operations; distinct = (driver, stack, operation, chunk policy)")
     # 7. verdicts
@@ -1956,7 +2149,15 @@ MANIFEST = {
             "not mention the pattern; model run_segs, which evaluates every second of these histories whose estimated cost is small - the others are oracle-only), tie: C01_generated_pattern_read_at_each_use (probe of the "
             "REAL helpers after a change of the pattern text) and an AST check that every use of the prompt pattern in the three channel classes compiles "
             "self._base_channel_args.comms_prompt_pattern at that use through the static text-keyed _get_prompt_pattern, no compiled pattern kept on the "
-            "channel. read() itself is tied: C01_read_without_esc_verbatim (a read without ESC hands the transport's bytes on verbatim for EVERY "
+            "channel. Outputs derived from the command itself (stream command-in-output: the first / an inner / the last / the only line equals the typed "
+            "text exactly, up to case, up to blanks, followed by a return; has it as a prefix or suffix; repeats it - send_command, send_commands with the "
+            "own and the neighbouring commands, send_interactive event inputs against the dialogue's texts; all driver kinds, sync and asyncio): the result "
+            "is the normalised device record whatever was typed - in the model process_output and the results of send_input / send_inputs_interact are "
+            "functions of the bytes read after the return only (C01_process_output_is_normalise, C01_history), and the obligation "
+            "C01_generated_process_output now probes the REAL _process_output with EVERY signature it accepts: buffers that hold a command as a line, and "
+            "for any parameter beyond (buf, strip_prompt) values derived from the buffer's own lines (bytes / text, as is / lower case / without blanks / "
+            "with the return character), by keyword and by position - every accepted call must give what the model computes from the buffer alone. "
+            "read() itself is tied: C01_read_without_esc_verbatim (a read without ESC hands the transport's bytes on verbatim for EVERY "
             "stripping function - the guard of read() is part of the model, and the history theorem rests on it) and the obligation C01_generated_read "
             "over ~115 probes of the REAL Channel.read / AsyncChannel.read (carry-over in, one transport chunk -> bytes returned, carry-over out; half of "
             "them ESC-free chunks with 0x9b / 0x9d + every follower; C01_generated_read_guard_exercised: the tree's ANSI pattern would change some of them).",
@@ -1973,7 +2174,9 @@ MANIFEST = {
             "unread when its answer is typed) - the model's observation record has no per-write field. Strict input mode only; ANSI stripping, rough mode and chunk-independence of decorated streams are C02's (the model "
             "carries the escape-sequence carry-over of read() in both shapes of the tree, exercised model-vs-implementation only: edge stream 'esc' and the "
             "ESC-carrying half of the read() probes; inside C01's domain - no ESC - the model's read is the identity minus CR, which the utf8-9b9d stream "
-            "checks on the real code under the oracle, a sample through the model). The long-echo stream is mostly oracle-only (a sample through the model). "
+            "checks on the real code under the oracle, a sample through the model). The long-echo stream is mostly oracle-only (a sample through the model); of the command-in-output stream every third history "
+            "goes through the model, all under the oracle; what send_input hands to _process_output at run time is not observed directly (the oracle "
+            "sees its effect on the result). "
             "Pattern changes: C01_history_repattern requires of every segment what C01_history_concrete requires (prompt_okb of the segment's pattern, outputs "
             "quiet under it); the change itself is modelled as instantaneous and silent (the oracle checks on the real driver that it writes and reads "
             "nothing and that the driver reports the pattern set); how a network driver derives the joined pattern from its levels is not modelled - the "
